@@ -333,3 +333,15 @@ PLAN["C19"] = {
     "runs": runs([dict(MON16, budget=200)],
                  [dict(MON16, budget=1200), {"flavour": "asan", "shards": 16, "scale": 0.3, "budget": 900}, {"flavour": "miri", "shards": 16, "budget": 900, "timeout": 3000}]),
 }
+
+PLAN["C20"] = {
+    "rule": "problems reaching every terminal status (planted / infeasible / badly scaled, infinite bounds, max_iter 0..12, unreachable tolerances, finite time limits) solved once per target: "
+            "buffer, stream (a counting Write), file, sink, and stdout of a child process (every 8th case); verbose off => zero bytes on buffer, stream and stdout; verbose on => bytes "
+            "identical on buffer, stream, file and stdout after masking the single `solve time` line; results bit-identical whatever the target, sink reports no buffer; the text is parsed: banner, "
+            "iteration column starts at 0, never decreases, steps by at most 1 and ends at solution.iterations, footer status = solution.status, last row agrees at print precision with info's "
+            "final values and (non-infeasible statuses) with solution.obj_val/obj_val_dual/r_prim/r_dual, header = true internal n, m, nnz(P), nnz(A), cone count, per-type cone lines = recount "
+            "of the internal cone list, presolve line = m_user - internal m, every settings line matches the settings at its print precision, linear solver name and thread count",
+    "assumptions": SOLVE_ASSUME + ["stdout is observed through a child process that regenerates the same case"],
+    "min_nontrivial": 100,
+    "runs": runs([dict(MON16, budget=200, scale=2.0)], [dict(MON16, budget=1200), {"flavour": "rel", "shards": 16, "scale": 0.3, "budget": 600}]),
+}
